@@ -575,7 +575,9 @@ impl<K: CacheKey + 'static> DiskCache<K> {
         crate::stats::CacheStats {
             get_count: snapshot.get_count,
             hit_count: snapshot.hit_count,
-            miss_count: snapshot.get_count - snapshot.hit_count,
+            // The two counters are loaded one after the other: a hit recorded (or a
+            // reset) in between can make hit_count the larger one
+            miss_count: snapshot.get_count.saturating_sub(snapshot.hit_count),
             put_count: 0,        // Would need separate counter
             remove_count: 0,     // Would need separate counter
             eviction_count: 0,   // Would need separate counter
